@@ -32,8 +32,12 @@ def cmc_items(spec_cls, size, cs, mins_list):
         st = "rejected" if isinstance(e, ShardedIOError) else "exc"
         return [{"c": list(m), "st": st, "bits": [], "cls": type(e).__name__} for m in mins_list]
     items = []
-    for m in mins_list:
+    for k, m in enumerate(mins_list):
         coords = [m[0], m[0] + cs, m[1], m[1] + cs, m[2], m[2] + cs]
+        if k % 5 == 4 and all(-2 ** 62 < v < 2 ** 62 for v in coords):
+            # coordinates computed with numpy arrive as numpy integer scalars
+            import numpy as np
+            coords = [np.int64(v) for v in coords]
         try:
             r = vs.get_cmc(coords)
             items.append({"c": list(m), "st": "id", "bits": bits(int(r))})
